@@ -13,6 +13,7 @@ from . import expr_native as _native
 
 LEVEL = "proof"
 _native.install(REG)
+_native.install_funnel()
 NATIVE = _native.NATIVE
 NATIVE_BUDGET = {"quick": 40, "thorough": 600}
 
